@@ -3,21 +3,13 @@ import SparseV.Props.C12
 #print axioms SparseV.C12.setScalar_canon
 #print axioms SparseV.C12.nnz_count
 #print axioms SparseV.C12.setitem_refines_of_bounds
-#print axioms SparseV.C12.setitem_refines_counterexample
-#print axioms SparseV.C12.setitem_refines_partial
+#print axioms SparseV.C12.gen_is_fixed
 #print axioms SparseV.C12.setitem_refines_fixed
-#print axioms SparseV.C12.setitem_refines_full_of_fixed
+#print axioms SparseV.C12.setitem_refines
 #print axioms SparseV.C12.dSetSel_scalar
-#print axioms SparseV.C12.step_refines_partial
-#print axioms SparseV.C12.step_refines_counterexample
-#print axioms SparseV.C12.counterexample_negStepStart0
-#print axioms SparseV.C12.counterexample_tupleRoute
-#print axioms SparseV.C12.counterexample_tupleRoute_tooMany
-#print axioms SparseV.C12.counterexample_emptyTupleKey
-#print axioms SparseV.C12.counterexample_fancyRawIndex
-#print axioms SparseV.C12.counterexample_fancyEmpty
-#print axioms SparseV.C12.counterexample_fancyBcast1
-#print axioms SparseV.C12.counterexample_mask
+#print axioms SparseV.C12.fancy_refines
+#print axioms SparseV.C12.mask_refines
+#print axioms SparseV.C12.step_refines
 #print axioms SparseV.C12.dok_history
 #print axioms SparseV.C12.nnz_invariant
 #print axioms SparseV.C12.getitem_after_history
